@@ -20,6 +20,7 @@ structure DState where
   sess : XState := {}
   json : JState := {}
   pbn : BState := {}
+  py : PyRegs := []
 
 def scoreOps (t : List String) : Option String :=
   match t with
@@ -69,7 +70,9 @@ def step (s : DState) (line : String) : DState × String :=
     else if op.startsWith "G." then
       (s, ((admissionOps t).orElse fun _ => admissionLoopOps t).getD "bad-op")
     else if op.startsWith "Y." then
-      (s, (pyOps t).getD "bad-op")
+      match pyOps s.py t with
+      | some (rs, o) => ({ s with py := rs }, o)
+      | none => (s, "bad-op")
     else if op.startsWith "H." then
       (s, (handsOps t).getD "bad-op")
     else if op.startsWith "N." then
